@@ -50,7 +50,9 @@ def run(chk):
     from . import c07
     from zx.report import FilteredCheck
     chk.rule("T-BITS (shared with C07)", "on every write_io path reaching the ULA: colour = data & 7, stamped with the controller's frame clock at the device write")
-    fc = FilteredCheck(chk, lambda k: k.startswith("T-BITS/") and (k.endswith("/border") or k.endswith("/border-clock")), "c07")
+    # ... and that every write to an even port does reach the border setter (the write side of the decode table)
+    fc = FilteredCheck(chk, lambda k: (k.startswith("T-BITS/") and (k.endswith("/border") or k.endswith("/border-clock"))) or
+                       k.startswith("T-TABLE/ZXController::write_io"), "c07")
     c07._KB.clear()
     c07._KB["prog"], c07._KB["names"] = prog, names
     for m in names.machine_variants():
